@@ -107,7 +107,7 @@ Definition sem_mech : sem := mkSem
   (fun st recv n argc => invoke (world_of st) recv n argc)
   (fun st c n => match c_super c with
                  | Some sup => get_super (world_of st) sup (c_slot0 c) n
-                 | None => Stuck "super outside a class with a superclass"
+                 | None => Stuck "super outside a class with a superclass"%string
                  end)
   (fun st c n argc => match c_super c with
                       | Some sup => super_invoke (world_of st) sup (c_slot0 c) n argc
@@ -115,7 +115,10 @@ Definition sem_mech : sem := mkSem
                       end)
   (fun st r q => derives (mstore st) r q)
   (fun st => List.length (classes (mstore st)))
-  (fun st r => option_map cname (class_obj (mstore st) r)).
+  (fun st r => match r with
+               | CUser _ | CMeta _ => option_map cname (class_obj (mstore st) r)
+               | _ => None
+               end).
 
 (* S: the receiver of a super access is the `self` (or `Self`) of the textually enclosing method *)
 Definition lexical_self (st : state) (c : ctx) : res value :=
@@ -125,22 +128,31 @@ Definition lexical_self (st : state) (c : ctx) : res value :=
   | None => Stuck "super outside a method"
   end.
 
+Definition no_super : string := "super outside a class with a superclass".
+
+Definition spec_super_ctx {A} (st : state) (c : ctx) (k : nat -> value -> res A) : res A :=
+  match c_owner c with
+  | Some o =>
+    match nth_error (hist st) o with
+    | Some d => match d_super d with
+                | Some _ => rbind (lexical_self st c) (k o)
+                | None => Stuck no_super
+                end
+    | None => Stuck no_super
+    end
+  | None => Stuck no_super
+  end.
+
 Definition sem_spec : sem := mkSem
   (fun st recv n => spec_get (hist st) (heap st) recv n)
   (fun st recv n argc => spec_invoke (hist st) (heap st) (arities st) recv n argc)
-  (fun st c n => match c_owner c with
-                 | Some o => rbind (lexical_self st c) (fun recv => spec_super_get (hist st) o recv n)
-                 | None => Stuck "super outside a class"
-                 end)
-  (fun st c n argc => match c_owner c with
-                      | Some o => rbind (lexical_self st c) (fun recv => spec_super_invoke (hist st) (arities st) o recv n argc)
-                      | None => Stuck "super outside a class"
-                      end)
+  (fun st c n => spec_super_ctx st c (fun o recv => spec_super_get (hist st) o recv n))
+  (fun st c n argc => spec_super_ctx st c (fun o recv => spec_super_invoke (hist st) (arities st) o recv n argc))
   (fun st r q => derivesS (hist st) r q)
   (fun st => List.length (hist st))
   (fun st r => match r with
                | CUser i => option_map d_name (nth_error (hist st) i)
-               | CMeta i => option_map (fun d => d_name d ++ "Class") (nth_error (hist st) i)
+               | CMeta i => option_map (fun d => if Nat.eqb i 0 then "Type" else d_name d ++ "Class") (nth_error (hist st) i)
                | _ => None
                end).
 
